@@ -134,7 +134,12 @@ def build_data(spec):
     if coords is not None:
         d.coords = coords
     for c in spec["comps"]:
-        d.add_component(comp_array(c, shape), c["name"])
+        if c["kind"] == "cat" and c.get("categories"):
+            # categories given explicitly, in an order of their own (possibly with an unused one)
+            from glue.core.component import CategoricalComponent
+            d.add_component(CategoricalComponent(comp_array(c, shape), categories=np.array(c["categories"])), c["name"])
+        else:
+            d.add_component(comp_array(c, shape), c["name"])
     return d
 
 
